@@ -997,18 +997,22 @@ Definition r_is_waiting_reply (s : rstate) (t : nat) : bool :=
      up_after_fails k used : an exchange started after Close fails
      up_leak k             : sockets created by the upstream that are still open after Close
      up_inflight_prompt k  : an exchange whose dial / reply is pending at Close fails at Close, not at its own deadline
-   https: DoHTransport.Close without an extra closer does nothing (K6a).  h3: the extra closer (quic.Transport)
-   does not close the UDP socket it was given, and a never-used transport still dials after Close (K6c, K6d).
-   quic: QuicTransport.Close does not close the UDP socket (K6c); [quic_waiters_fixed] = runDialingCall wakes its
-   waiters when the transport was closed meanwhile (the K6b fix). *)
-Definition up_after_fails (k : ukind) (used : bool) : bool :=
-  match k with KHttps => false | KH3 => used | _ => true end.
-Definition up_leak (k : ukind) : nat :=
-  match k with KHttps | KH3 | KQuic => 1 | _ => 0 end.
-Definition up_inflight_prompt (quic_waiters_fixed : bool) (k : ukind) : bool :=
-  match k with KHttps => false | KQuic => quic_waiters_fixed | _ => true end.
-Definition up_orderly (k : ukind) : bool :=
-  up_after_fails k false && up_after_fails k true && (up_leak k =? 0) && up_inflight_prompt true k.
+   Before the fixes (k6 = false): https: DoHTransport.Close without an extra closer did nothing (K6a).  h3: the
+   extra closer (quic.Transport) did not close the UDP socket it was given, and a never-used transport still
+   dialled after Close (K6c, K6d).  quic: QuicTransport.Close did not close the UDP socket (K6c).
+   [quic_waiters_fixed] = runDialingCall wakes its waiters when the transport was closed meanwhile (the K6b fix).
+   The composite model of Net/ShutdownOwn.v says which parts each upstream owns and closes.
+   [k6] = the tree has the K6a / K6c / K6d fixes: an https upstream dials through a connTracker that is the
+   DoHTransport's closer; quic and h3 upstreams close the quic.Transport AND the UDP socket they made.
+   k6 = false is the tree before those fixes (kept so that the old behaviour can be replayed: corpus fixed.case). *)
+Definition up_after_fails (k6 : bool) (k : ukind) (used : bool) : bool :=
+  if k6 then true else match k with KHttps => false | KH3 => used | _ => true end.
+Definition up_leak (k6 : bool) (k : ukind) : nat :=
+  if k6 then 0 else match k with KHttps | KH3 | KQuic => 1 | _ => 0 end.
+Definition up_inflight_prompt (k6 : bool) (quic_waiters_fixed : bool) (k : ukind) : bool :=
+  match k with KHttps => k6 | KQuic => quic_waiters_fixed | _ => true end.
+Definition up_orderly (k6 : bool) (k : ukind) : bool :=
+  up_after_fails k6 k false && up_after_fails k6 k true && (up_leak k6 k =? 0) && up_inflight_prompt k6 true k.
 
 (* =====================================================================================================
    Part 5 — QuicTransport  (internal/upstream/transport/quic_transport.go)
